@@ -15,6 +15,7 @@ THEOREMS = ["Schedule.process_terminates_drains", "Schedule.state_order_independ
             "Schedule.exit_status_range", "Schedule.exit_status_three_iff", "Schedule.exit_status_two_iff",
             "Schedule.acyclic_sees_final", "Schedule.body_view_acyclic", "Schedule.body_view_order_independent",
             "Schedule.cyclic_sees_unfinished", "Schedule.submodule_before_package_counterexample",
+            "Schedule.package_before_submodule_example",
             "PostProcess.kind_pass_spec", "PostProcess.kind_pass_order_independent", "PostProcess.early_stop_order_dependent"]
 RULE = ("generated projects (cross-module bases, star imports, __all__ re-exports, import cycles, unparsable files; plain imports whose "
         "importer's statements depend on the target being analysed; a star import taken before / after the single re-export; a "
@@ -27,10 +28,16 @@ RULE = ("generated projects (cross-module bases, star imports, __all__ re-export
         "standard-library packages, pydoctor itself in the thorough tier) are analysed under shuffled depth-first orders and their "
         "canonical dumps compared. Orders are the reachable ones: depth-first, package first, siblings and roots in any order. Non-trivial = project with an import edge between siblings and at least "
         "two distinct orders.")
-ASSUMPTIONS = ["which modules a body asks for (getProcessedModule targets) is a function of the source text alone; read from a reference run",
+ASSUMPTIONS = ["which modules a body asks for (getProcessedModule targets: from-imports, and since 824faae every prefix a, a.b, a.b.c of a plain "
+               "`import a.b.c`) is a function of the source text alone; read from a reference run (the `sees` events of the importer, in order). "
+               "Nothing is expanded by the harness: the parents-first loop of getProcessedModule (0ba6723) is transcribed in the model "
+               "(`Mod.above` = the module's parent chain, outermost first, read off the module tree; `Schedule.processAbove`), its nested "
+               "processModule calls show as start/finish events in both logs and make no `sees` event in either",
                "for projects with import cycles only the class hierarchy (bases, linearisations) is required to agree, as the property says; "
                "a request for a package ABOVE the importer (`from . import x`) is not an import cycle for this purpose: Python has run that "
-               "package's __init__ before the module whatever is imported first",
+               "package's __init__ before the module whatever is imported first; the packages above a requested module ARE edges (they are "
+               "entered first) unless they are the importer or above it — the same graph as the model's `Ranked`, used by the "
+               "acyclic-import oracle and by the documented-objects oracle alike",
                "the cause named in a signature (plain import / sub-module before its package) is established by re-running the two orders "
                "with the corresponding repair emulated in-process; the emulation only NAMES a difference the oracle has already found"]
 PARTIAL = {"Schedule.order_independent(documented objects)": "the theorems cover the scheduler (drain, once, final state, "
@@ -118,6 +125,12 @@ class SchedRec:
         model.Documentable.reparent = reparent
 
         def addObject(system, obj):
+            if not isinstance(obj, model.Module) and isinstance(system.allobjects.get(obj.fullName()), model.Module):
+                # a class / function / variable defined under the full name of a module (`class app` in the package
+                # `app` that has a module app/app.py): from here on `app.app` stops denoting the module, so which
+                # module a body asks for is no longer a function of its text (the model's assumption) — such
+                # projects are left to the oracle, like the ones where a module is moved
+                rec.module_moved = True
             if not hasattr(obj, "_verif_orig"):
                 par = obj.parent
                 obj._verif_orig = obj.name if par is None else getattr(par, "_verif_orig", par.fullName()) + "." + obj.name
@@ -785,6 +798,19 @@ def hierarchy_scenario(rng) -> List[Unit]:
                 body.append("    pass")
             classes.append((i, cname, iv))
         units.append(Unit(q(m), False, "\n".join(lines + body) + "\n", "hp" if inpkg else None))
+    if rng.random() < 0.5 and len(units) > 1:
+        # since 824faae a plain import analyses its target, so a subclass is registered before its base only through an
+        # import cycle: the usual one is a back-import under `if TYPE_CHECKING:` (never executed by Python, visited by
+        # pydoctor) at the top of the module that holds the base — the later module is then analysed in the middle
+        # of the earlier one when that comes first (the property promises the class hierarchy there)
+        users = sorted({i for (i, _c, _iv) in classes if i > 0})
+        if users:
+            j = rng.choice(users)
+            k = rng.randrange(0, j)
+            tgt = next(u for u in units if u.qname == q(names[k]))
+            lines = tgt.source.split("\n")
+            guard = ["from typing import TYPE_CHECKING", "if TYPE_CHECKING:", "    " + rng.choice(["import %s", "from %s import *", "import %s as _later"]) % q(names[j])]
+            units[units.index(tgt)] = Unit(tgt.qname, False, "\n".join(lines[:1] + guard + lines[1:]), tgt.parent)
     rng.shuffle(units)
     if inpkg:
         units.insert(0, Unit("hp", True, Q + "package" + Q + "\n", None))
@@ -813,12 +839,18 @@ def alias_scenario(rng) -> List[Unit]:
     cimp = rng.choice(["from %s import %s" % (pk, base), "import %s" % pk, "from %s import %s as T" % (pk, base)])
     bexpr = base if cimp.startswith("from") and " as " not in cimp else ("T" if " as T" in cimp else "%s.%s" % (pk, base))
     conssrc = [cimp, "class Special(%s):" % bexpr, "    def hook(self):", "        pass", "    level = 2"]
+    inside = rng.random() < 0.5
+    consq = "%s.%s" % (pk, cons) if inside else rng.choice(["app", "zapp"])
+    if rng.random() < 0.4:
+        # a back-import of the consumer under `if TYPE_CHECKING:` in the implementation module: the consumer can then
+        # be analysed while the package has not bound the published name yet (import cycle: hierarchy only)
+        implsrc = ["from typing import TYPE_CHECKING", "if TYPE_CHECKING:", "    import %s" % consq] + implsrc
     units = [Unit(pk, True, "\n".join(init) + "\n", None),
              Unit("%s.%s" % (pk, impl), False, "\n".join(implsrc) + "\n", pk)]
-    if rng.random() < 0.5:
-        units.append(Unit("%s.%s" % (pk, cons), False, "\n".join(conssrc) + "\n", pk))
+    if inside:
+        units.append(Unit(consq, False, "\n".join(conssrc) + "\n", pk))
     else:
-        top = Unit(rng.choice(["app", "zapp"]), False, "\n".join(conssrc) + "\n", None)
+        top = Unit(consq, False, "\n".join(conssrc) + "\n", None)
         units = ([top] + units) if rng.random() < 0.5 else (units + [top])
     return units
 
@@ -844,7 +876,13 @@ def wrap_scenario(rng) -> List[Unit]:
         usersrc = ["from .%s import %s" % (impl if src_from == "definer" else api, ", ".join(names)),
                    "class ISub(IBase):", "    f = MyField()", "IDyn = MyIC('IDyn')"]
     else:
-        implsrc = ["class X:", "    def meth(self):", "        'meth doc'", "    attr = 1", "def deco(f):", "    return f"]
+        chain = rng.random() < 0.5
+        if chain:
+            # an instance variable overridden by class variables in the re-exported class AND in the user's subclass
+            implsrc = ["class Root:", "    def __init__(self):", "        self.sides = 0", "        'number of sides'",
+                       "class X(Root):", "    def meth(self):", "        'meth doc'", "    attr = 1", "    sides = 3", "def deco(f):", "    return f"]
+        else:
+            implsrc = ["class X:", "    def meth(self):", "        'meth doc'", "    attr = 1", "def deco(f):", "    return f"]
         moved = ["X"]
         form = rng.choice(["from", "from", "module"])
         if form == "from":
@@ -859,6 +897,8 @@ def wrap_scenario(rng) -> List[Unit]:
         if r > 0.5:
             # (hunter, noticed) the docstring assigned through the name the object was imported under
             usersrc.append("%s.__doc__ = 'documented by the user module'" % bx)
+        if chain:
+            usersrc += ["class Square(%s):" % bx, "    sides = 4"]
     apisrc = ["from .%s import %s" % (impl, ", ".join(moved)), "__all__ = %r" % moved]
     units = [Unit(pk, True, "", None), Unit("%s.%s" % (pk, impl), False, "\n".join(implsrc) + "\n", pk),
              Unit("%s.%s" % (pk, api), False, "\n".join(apisrc) + "\n", pk),
@@ -1011,8 +1051,8 @@ def subpackage_reexport_scenario(rng) -> List[Unit]:
 
 
 def hunt_corpus() -> List[List[Unit]]:
-    """the inputs of hunt/C06/1..4 (and the `noticed` docstring-assignment case), both layouts each; the orders are
-    enumerated like for every other project"""
+    """the inputs of hunt/C06/1..4 (and the `noticed` docstring-assignment case), both layouts each, and of the round-2
+    finding that 824faae repaired on the way; the orders are enumerated like for every other project"""
     def mk(*mods: Tuple[str, str]) -> List[Unit]:
         qs = [q.rstrip("/") for q, _ in mods]          # a trailing `/` marks a package without modules
         return [Unit(q.rstrip("/"), q.endswith("/") or any(o.startswith(q + ".") for o in qs), text, q.rpartition(".")[0] or None) for q, text in mods]
@@ -1033,6 +1073,10 @@ def hunt_corpus() -> List[List[Unit]]:
            ("impl.sub.leaf", "from ..helpers import H\nclass L(H):\n    pass\n")),
         mk(("lib", ""), ("lib._impl", "class X:\n    def meth(self):\n        'meth doc'\n"), ("lib.api", "from ._impl import X\n__all__ = ['X']\n"),
            ("lib.user", "from ._impl import X\nX.__doc__ = 'documented by the user module'\n")),
+        # (round 2, fixed by 824faae as a side effect) the NAME kept for an undocumented base reached through a package attribute
+        mk(("lib", "import lib.zimpl as _m\nThing = _m.Thing\n"), ("lib.zimpl", "def broken(:\n    pass\n"),
+           ("zapp", "import lib\nclass Special(lib.Thing):\n    pass\n")),
+        mk(("lib", "from ext import Thing\n"), ("app", "import lib\nclass Special(lib.Thing):\n    pass\n")),
     ]
 
 
@@ -1098,15 +1142,38 @@ def run(ctx: Ctx) -> None:
                 a, b = ev[4:-1].split(">")
                 imports[int(a)].append(int(b))
         parses = ["parseError%d" % k not in rec0.log for k in range(len(units))]
-        modtoks = " ".join("%s:%s" % ("p" if parses[k] else "x", ",".join(map(str, imports[k])) or "-") for k in range(len(units)))
+        # the packages above each module, outermost first (`mod.parent` chain): getProcessedModule processes the
+        # UNPROCESSED ones before the module it is asked for (0ba6723) — transcribed in the model (`Mod.above`)
+        qidx = {u.qname: k for k, u in enumerate(units)}
+        above: Dict[int, List[int]] = {}
+        for k, u in enumerate(units):
+            chain, par = [], u.parent
+            while par is not None and par in qidx:
+                chain.append(qidx[par])
+                par = units[qidx[par]].parent
+            above[k] = chain[::-1]
+        modtoks = " ".join("%s:%s:%s" % ("p" if parses[k] else "x", ",".join(map(str, imports[k])) or "-",
+                                         ",".join(map(str, above[k])) or "-") for k in range(len(units)))
         cyc = has_cycle(units, imports)
-        # for the documented objects a request for a package ABOVE the importer (`from . import util` asks for the
-        # package first) is not an import cycle: Python has always run that package's __init__ before the module, whatever
-        # is imported first, so nothing about the result depends on the entry point
-        py_imports = {k: [t for t in v if not (units[k].qname + ".").startswith(units[t].qname + ".")] for k, v in imports.items()}
+        # the import graph (the model's `Ranked`): an edge to every module a body asks for AND to every package above
+        # such a module (entered first, implicitly) — except requests that concern the importer itself or a package
+        # above the importer (`from . import util` asks for the package first; every sibling has that package above
+        # it): Python has always run those __init__s before the module, whatever is imported first, so they are no
+        # import cycle and nothing about the result depends on the entry point there
+        own = {k: set(above[k]) | {k} for k in range(len(units))}
+        py_imports = {k: [] for k in range(len(units))}
+        for k, v in imports.items():
+            for t in v:
+                if t in own[k]:
+                    continue
+                for e in above[t] + [t]:
+                    if e not in own[k] and e not in py_imports[k]:
+                        py_imports[k].append(e)
         pycyc = has_cycle(units, py_imports)
         if cyc and not pycyc:
             ctx.count("projects:cycle-only-through-own-package(full comparison)")
+        if pycyc and not cyc:
+            ctx.count("projects:cycle-only-through-implicit-package-request")
         ords = valid_orders(units, ctx.rng, limit)
         ref = None
         inh_cyc = False
@@ -1137,10 +1204,12 @@ def run(ctx: Ctx) -> None:
                 impls.append("ok " + " ".join(rec.log) + " | " + states + " | " + (",".join(str(rec.ids[id(m)]) for m in s.unprocessed_modules) or "-"))
                 pay.append({"units": src, "order": od})
             # direct oracle (acyclic projects): every import obtained its target in the state that module ends in
-            if not cyc:
+            if not pycyc:
                 for ev in rec.log:
                     if ev.startswith("sees"):
-                        tgt = int(ev[4:-1].split(">")[1])
+                        src_, tgt = map(int, ev[4:-1].split(">"))
+                        if tgt in own[src_]:
+                            continue        # a request for the importer's own package: returned as it is, by design
                         want = "D" if parses[tgt] else "G"
                         if ev[-1] != want:
                             ctx.fail("acyclic-import-saw-unfinished-module", {"units": src, "order": od},
